@@ -5,6 +5,9 @@
 //!   trigger: (0 limit) SizeTrigger | (1 min) OnStartUpTrigger
 //!          | (2 pre (thr ...)) scripted user Trigger: i-th consultation (global over
 //!            restarts) fires iff thr_i <= len_estimate(); beyond the script: never
+//!          | (3 n modulate t0) the real TimeTrigger, interval n seconds, under the hook
+//!            clock (log4rs::verif_hooks::set_clock), which reads t0 (UTC seconds) at the
+//!            first build and is moved by the clock ops; TZ is forced to UTC
 //!   roller : (0) DeleteRoller | (1 base count gz) FixedWindowRoller
 //!   pre    : (0) no file | (1 bytes) active file pre-exists with these bytes
 //!   a0     : builder append flag of the first build
@@ -12,6 +15,7 @@
 //!          | (1 a) restart: drop the appender, build again with append flag a
 //!          | (2 ((rec ...) ...)) burst: one thread per list, released by a barrier,
 //!            each appending its records (rec = (chunk ...)) in order
+//!          | (3 t) set the hook clock to t (UTC seconds); no appender call
 //! result: one entry per op (entry 0 = the initial build):
 //!   ( ((shown disk rolled) ...) ((kind idx bytes) ...) errors [order] )
 //!   consultations seen by a Policy wrapped around the real CompoundPolicy,
@@ -23,6 +27,7 @@ use log4rs::append::rolling_file::policy::compound::roll::fixed_window::FixedWin
 use log4rs::append::rolling_file::policy::compound::roll::Roll;
 use log4rs::append::rolling_file::policy::compound::trigger::onstartup::OnStartUpTrigger;
 use log4rs::append::rolling_file::policy::compound::trigger::size::SizeTrigger;
+use log4rs::append::rolling_file::policy::compound::trigger::time::{TimeTrigger, TimeTriggerConfig};
 use log4rs::append::rolling_file::policy::compound::trigger::Trigger;
 use log4rs::append::rolling_file::policy::compound::CompoundPolicy;
 use log4rs::append::rolling_file::policy::Policy;
@@ -122,6 +127,15 @@ impl Ctx {
         let trigger: Box<dyn Trigger> = match t[0].n() {
             0 => Box::new(SizeTrigger::new(t[1].n() as u64)),
             1 => Box::new(OnStartUpTrigger::new(t[1].n() as u64)),
+            3 => {
+                let yaml = format!(
+                    "interval: {} seconds\nmodulate: {}\n",
+                    t[1].n(),
+                    if t[2].b() { "true" } else { "false" }
+                );
+                let cfg: TimeTriggerConfig = serde_yaml::from_str(&yaml)?;
+                Box::new(TimeTrigger::new(cfg))
+            }
             _ => Box::new(ScriptTrigger {
                 pre: t[1].b(),
                 script: self.script.clone(),
@@ -212,8 +226,21 @@ fn chunks_of(v: &Val) -> Vec<Vec<u8>> {
     v.l().iter().map(|c| c.s().to_vec()).collect()
 }
 
+/// clears the hook clock when the case ends (also on panic)
+struct ClockGuard;
+impl Drop for ClockGuard {
+    fn drop(&mut self) {
+        log4rs::verif_hooks::set_clock(None);
+    }
+}
+
 pub fn run(case: &Val) -> Val {
     let c = case.l();
+    let _clock_guard = ClockGuard;
+    if c[0].l()[0].n() == 3 {
+        std::env::set_var("TZ", "UTC");
+        log4rs::verif_hooks::set_clock(Some((c[0].l()[3].n() as i64, 0)));
+    }
     let tmp = tempfile::tempdir().unwrap();
     let dir: &Path = tmp.path();
     // record table: ids in op order (burst: thread-major)
@@ -282,6 +309,9 @@ pub fn run(case: &Val) -> Val {
                 if app.is_none() {
                     errors += 1;
                 }
+            }
+            3 => {
+                log4rs::verif_hooks::set_clock(Some((o[1].n() as i64, 0)));
             }
             _ => {
                 // burst
